@@ -29,6 +29,10 @@ claimed['C16'] = ("All paths of stream-parsing the bounded inputs/templates and 
 claimed['C11'] = ("Every sequence of units up to the bound is explored (classes enumerated through the solver, bytes within a class symbolic); the rendered emphasis structure is compared with a transcription of the spec's delimiter-run algorithm.", "§C11")
 claimed['C12'] = ("All label pairs over a 12-member alphabet up to the bound, all orders/placements of competing definitions, and closure clauses over bounded inputs and link templates; resolution compared with a reference normaliser.", "§C12")
 claimed['C18'] = ("All callback policies (every Pre/Post return value and nil-ness is a solver variable) over six real trees, virtual roots and all virtual tree shapes up to the bound; the event trace is checked against a recursive reference walker.", "§C18")
+claimed['C06'] = ("Every abstract document within the node budget, with every spelling choice of the canonical serialiser a solver variable and symbolic letters/punctuation/code bytes; rendered HTML compared with the HTML computed from the abstract document.", "§C06")
+claimed['C19'] = ("Reduction: non-interference. The premise (no call writes to pre-existing state) is established by bounded symbolic execution with the whole heap frozen, for every input in the bound; interleavings are not explored.", "§C19")
+claimed['C20'] = ("All paths of Parse+Format over the bounded inputs with healthy and failing writers (failure point a solver variable); canonical documents within the node budget: HTML preserved and Format idempotent.", "§C20")
+levels = {'C19': 'other'}
 reasons = {}
 
 checks = []
@@ -42,7 +46,7 @@ for i in ids:
             "evidence_file": "/verif/evidence/%s.json" % i,
             "replay_cmd_template": "./bin/vcheck replay {path}",
             "engine": "symgo",
-            "level_claimed": {"category": "model_checking", "text": text, "design_ref": ref},
+            "level_claimed": {"category": levels.get(i, "model_checking") if "levels" in globals() else "model_checking", "text": text, "design_ref": ref},
             "level_note": NOTE,
             "technique": TECH,
         })
